@@ -335,3 +335,6 @@ CONTRACTS = [
     Contract('decimal_conditions_vs_python', ['pony.orm.dbproviders.sqlite:SQLiteDecimalConverter.py2sql', 'pony.orm.sqlbuilding:Param.eval', 'pony.orm.sqltranslation:NumericMixin', 'pony.orm.sqltranslation:CmpMonad.getsql'],
              DC.configs, DC.case, [('equals_python_evaluation_or_refused', DC.spec)], level='bounded', bound=DC.BOUND),
 ]
+
+from contracts import c06 as _c06
+CONTRACTS += [c for c in _c06.CONTRACTS if c.id == 'StringMixin._like']          # LIKE pattern escaping of in / startswith / endswith (a mechanism the property names), contracted under C06
